@@ -1167,7 +1167,7 @@ def _run(ctx):
         spec = mk()
         cls = spec["cls"]
         t = tables.get(cname, {})
-        mnames = sorted(t.get("methods", {}))
+        mnames = list(t.get("order", sorted(t.get("methods", {}))))   # index = position in the Lean table
         onames = sorted(t.get("mutators", {}))
         queries = []
         if not spec.get("only_summary"):
